@@ -73,7 +73,8 @@ def importVal (lits : List String) (i : Import) : Val :=
 def dataVal (lits : List String) (binaryName : String) (info : PkgInfo) : Val :=
   .struct [("Description", .str info.description), ("Funcs", .list (info.funcs.map (fnVal lits))),
     ("DefaultFunc", fnVal lits (info.defaultFunc.getD zeroFn)),
-    ("Aliases", .map (info.aliases.map fun (k, f) => (k, fnVal lits f))),
+    -- a Go map: text/template visits it in key order, whatever order the runtime would iterate in
+    ("Aliases", .map ((sortBy (·.1) info.aliases).map fun (k, f) => (k, fnVal lits f))),
     ("Imports", .list (info.imports.map (importVal lits))), ("BinaryName", .str binaryName)]
 
 /-- the bytes `GenerateMainfile` writes -/
